@@ -34,6 +34,8 @@ def units(tier, seed):
         {"sid": "basic", "family": "inline_s", "size": 4 if q else 6, "donor": ("inline_s", 3), "max_slices": 10 if q else 30},
         {"sid": "list", "family": "lists_q", "size": 8 if q else 11, "donor": ("lists_q", 7), "max_slices": 10 if q else 30},
         {"sid": "list", "family": "astral", "size": 5 if q else 6, "donor": ("astral", 4), "max_slices": 8 if q else 30},
+        # blocks that carry node marks: a node-mark step and an edit inside the node are separated steps
+        {"sid": "topmarks", "family": "topmarks", "size": 4 if q else 6, "donor": ("topmarks", 3), "max_slices": 8 if q else 30},
     ]
     extra = [
         {"sid": "table", "family": "table", "size": 10 if q else 14, "donor": ("table", 10), "max_slices": 10 if q else 30},
@@ -41,7 +43,6 @@ def units(tier, seed):
         {"sid": "struct", "family": "struct", "size": 6 if q else 8, "donor": ("struct", 5), "max_slices": 10 if q else 30},
         {"sid": "strict_hb", "family": "strict", "size": 9 if q else 11, "donor": ("strict", 8), "max_slices": 10 if q else 30},
         {"sid": "title", "family": "title", "size": 8 if q else 11, "donor": ("title", 7), "max_slices": 10 if q else 30},
-        {"sid": "topmarks", "family": "topmarks", "size": 4 if q else 6, "donor": ("topmarks", 3), "max_slices": 10 if q else 30},
         {"sid": "fixed", "family": "fixed", "size": 10 if q else 14, "donor": ("fixed", 8), "max_slices": 10 if q else 30},
     ]
     for sp in specs + extra:
